@@ -392,7 +392,7 @@ def build(tier, rng):
     groups.append(g)
 
     # ---- hand-picked interactions ---------------------------------------------------------------
-    g = G("directed-configurations", "_CryptConfig option inheritance / default + deprecated resolution", "hand-picked interactions: auto + category default, category list over global auto, empty category list, 'all' vs scheme precedence, rounds alias overridden per category, clipping on both sides")
+    g = G("directed-configurations", "_CryptConfig option inheritance / default + deprecated resolution", "hand-picked interactions: auto + category default, category list over global auto, empty category list, 'all' vs scheme precedence, rounds alias overridden per category, clipping on both sides, categories that differ only by wildcard options")
     directed = [
         {"schemes": ["sha256_crypt", "md5_crypt", "des_crypt"], "deprecated": "auto", "options": {"sha256_crypt": {"rounds": 1000}}, "categories": {"admin": {"default": "md5_crypt"}}},
         {"schemes": ["md5_crypt", "sha1_crypt", "des_crypt"], "deprecated": ["auto"], "options": {"sha1_crypt": {"max_rounds": 5}}, "categories": {"admin": {"deprecated": ["md5_crypt"]}, "staff": {"deprecated": []}}},
@@ -403,6 +403,10 @@ def build(tier, rng):
         {"schemes": ["bsdi_crypt", "des_crypt"], "options": {"bsdi_crypt": {"min_rounds": 21, "max_rounds": 101, "default_rounds": 50, "vary_rounds": 10}}, "categories": {"admin": {"options": {"bsdi_crypt": {"max_rounds": 51}}}}},
         {"schemes": ["des_crypt", "plaintext"], "deprecated": ["des_crypt"], "options": {}, "categories": {}},
         {"schemes": ["plaintext", "des_crypt", "sha256_crypt"], "default": "sha256_crypt", "options": {"sha256_crypt": {"rounds": 1000}}, "categories": {}},
+        # a category that differs from the default one ONLY through its wildcard ('<cat>__all__<option>') options
+        {"schemes": ["sha256_crypt", "md5_crypt"], "options": {"sha256_crypt": {"min_rounds": 1000, "default_rounds": 1500, "max_rounds": 4000}}, "categories": {"admin": {"all": {"min_rounds": 3000}}}},
+        {"schemes": ["pbkdf2_sha256", "des_crypt"], "options": {"pbkdf2_sha256": {"min_rounds": 5, "default_rounds": 10, "max_rounds": 40}}, "categories": {"admin": {"all": {"max_rounds": 8}}, "staff": {"all": {"min_rounds": 20}}}},
+        {"schemes": ["sha1_crypt", "pbkdf2_sha256"], "all": {"vary_rounds": 0}, "options": {"sha1_crypt": {"min_rounds": 10, "default_rounds": 20, "max_rounds": 30}, "pbkdf2_sha256": {"default_rounds": 12}}, "categories": {"admin": {"all": {"default_rounds": 25}}}},
     ]
     for cfg in directed:
         with guarded(g, "directed-configurations"):
